@@ -403,6 +403,11 @@ def run(rep: Report, prog: Program, tier: str) -> None:
     check_failure_table(rep, prog)
     check_finalize(rep, prog)
     check_success(rep, prog)
+    rep.rule("R3.11", "`the failure class has a strategy` means a registered per-class entry or the default - decided by presence in the table, not by the truthiness of the strategy object (= C05 R5.1)")
+    from .c05 import select_strategy_shape
+
+    select_strategy_shape(rep, "R3.11", prog)
+    rep.floor("R3.11", 1)
     rep.rule("R3.10", "`the failure class is retryable` is judged on the classifier's verdict for this very failure (no cached or substituted verdict)")
     from .common import failure_entry
 
